@@ -166,3 +166,24 @@ def strip_debug(msg):
     while head.endswith('<br/>\n') or head.endswith('\n'):
         head = head[:-6] if head.endswith('<br/>\n') else head[:-1]
     return head
+
+
+def reset_scripted(obj, depth=0, seen=None):
+    """Rewind every Scripted sampling set reachable from a grader's configuration (they hand out their values in order and
+    remember where they stopped: two graders compared call by call must start from the same place)."""
+    if seen is None:
+        seen = set()
+    if depth > 8 or id(obj) in seen:
+        return
+    seen.add(id(obj))
+    if isinstance(obj, Scripted):
+        obj.reset()
+        return
+    if isinstance(obj, dict):
+        for v in obj.values():
+            reset_scripted(v, depth + 1, seen)
+    elif isinstance(obj, (list, tuple)):
+        for v in obj:
+            reset_scripted(v, depth + 1, seen)
+    elif hasattr(obj, 'config') and hasattr(obj, 'schema_config'):
+        reset_scripted(obj.config, depth + 1, seen)
